@@ -194,11 +194,11 @@ let run_reg line =
           | "STBQ" -> KStbQ | "OPEREVQ" -> KOperEvQ | "OPERCONDQ" -> KOperCondQ | "OPERENQ" -> KOperEnQ | "OPEREN" -> KOperEn v
           | "QUESEVQ" -> KQuesEvQ | "QUESCONDQ" -> KQuesCondQ | "QUESENQ" -> KQuesEnQ | "QUESEN" -> KQuesEn v
           | "PRESET" -> KPreset | "ERRNEXTQ" -> KErrNextQ | "ERRCOUNTQ" -> KErrCountQ | _ -> raise Unsupported) in
-        let r = CmdModel.cmd_resp !s c in
+        let r = CmdModel.cmd_text !s c in      (* the response message as the model defines it: decimal text by FmtModel.int2str, CR LF *)
         let (s', e) = CmdModel.cmd_do !s c in
         s := s';
         L.iter (function EvE c -> if not !reg_noerr then Buffer.add_string buf (Printf.sprintf " E%d" (z_to_int c)) | EvQ v -> Buffer.add_string buf (Printf.sprintf " Q%d" (n_to_int v))) e;
-        (match r with Some n -> Buffer.add_string buf " W"; S.iter (fun ch -> Buffer.add_string buf (Printf.sprintf "%02x" (Char.code ch))) (string_of_int (n_to_int n) ^ "\r\n") | None -> ());
+        (match r with Some t -> Buffer.add_string buf " W"; L.iter (fun z -> Buffer.add_string buf (Printf.sprintf "%02x" (z_to_int z))) t | None -> ());
         show s' []
     | _ -> raise Unsupported
   and _unused = () in
